@@ -37,7 +37,7 @@ def main():
             d1 = sh(f'MPLBACKEND=Agg /venv/bin/python {a.demo} {wt}/src')
             res['demo_with'] = d1.returncode
             print(f'demo: without={res["demo_without"]} with={res["demo_with"]}')
-        env = dict(os.environ, CC_REPO=str(wt), VERIF_SEED=a.seed)
+        env = dict(os.environ, CC_REPO=str(wt), VERIF_SEED=a.seed, VERIF_EVIDENCE_DIR=tempfile.mkdtemp(prefix='seed_ev_'))
         for p in props:
             c = subprocess.run([str(ROOT / 'bin' / 'check'), '--property', p, '--tier', a.tier], capture_output=True, text=True, env=env)
             vio = [l for l in c.stdout.splitlines() if l.startswith('VIOLATION')]
